@@ -74,12 +74,19 @@ def correspondence(rep, ctx):
         g = r_.choice(gen.deep)
         cases.append(({view.names[g]: 10.0 ** r_.uniform(25, 30)}, "num", 10.0 ** r_.uniform(-25, -19), r_.choice(["ps", "ns", "us", "μs", "ms"])))
         gen._count("time:tiny-subsecond-unit")
+    # inventories scaled by a Python float before the decay (their amounts become SymPy Floats): deep chains, short times
+    scaled = [({"U-238": 2.0}, "mol", 1.0, "h", 0.5), ({"Th-232": 3.0}, "num", 1.0, "s", 0.25), ({"Fm-257": 1.0e10}, "num", 1.0e-3, "s", 1.0 / 3.0)]
+    for contents, unit, t, tu, fac in scaled if thorough else scaled[:2]:
+        cases.append((contents, unit, t, tu, fac))
+        gen._count("inventory:float-scaled-hp")
     reals, ocases, meta = [], [], []
     for c in cases:
-        contents, unit, t, tu = c
+        contents, unit, t, tu = c[:4]
         try:
             inv = rd.InventoryHP(dict(contents), unit)
-            n0 = {view.index[k]: sym_to_frac(v) for k, v in inv.contents.items()}
+            if len(c) > 4:
+                inv = c[4] * inv
+            n0 = {view.index[k]: (sym_to_frac(sympy.Rational(v)) if getattr(v, "is_Float", False) else sym_to_frac(v)) for k, v in inv.contents.items()}
             ts = sym_to_frac(conv.time_unit_conv(sympy.nsimplify(t), tu, "s", dd.sympy_year_conv))
             if any(v is None for v in n0.values()) or ts is None:
                 rep.inconclusive += 1     # irrational reading (algebraic atomic mass / nsimplify artefact)
@@ -136,7 +143,7 @@ def correspondence(rep, ctx):
                     anc = ancestors_sum(view, n0, i)
                     key = "F6-hp-digits" if mag < F6_THRESHOLD * anc else None
                     rep.violation("failing-input",
-                                  f"InventoryHP({c[0]!r}, {c[1]!r}).decay({c[2]!r}, {c[3]!r})[{nm}] = {float(v)!r}, exact "
+                                  f"{'(%r * ' % c[4] if len(c) > 4 else ''}InventoryHP({c[0]!r}, {c[1]!r}){')' if len(c) > 4 else ''}.decay({c[2]!r}, {c[3]!r})[{nm}] = {float(v)!r}, exact "
                                   f"{float(lo)!r} (relative error {float(abs(fv - lo) / mag) if mag else 0:.2e})",
                                   {"call": "decayHP", "contents": c[0], "unit": c[1], "t": c[2], "tu": c[3], "nuclide": nm,
                                    "how_to_replay": "./check C02 --replay <this file>"}, True, match_key=key)
